@@ -557,8 +557,11 @@ class Model:
         if dotted == "math.ceil":
             return self.s.builtins["ceil"]
         if dotted == "loguru.logger":
-            return Namespace("logger", {k: Builtin("logger." + k, lambda it, node, *a, **kw: None)
-                                        for k in ("warning", "info", "debug", "error", "exception")})
+            def mk(kind):
+                def log(it, node, *a, **kw):
+                    it.p.ghost.setdefault("logged", []).append(kind)
+                return Builtin("logger." + kind, log)
+            return Namespace("logger", {k: mk(k) for k in ("warning", "info", "debug", "error", "exception")})
         if dotted == "asyncio":
             return Namespace("asyncio", {
                 "gather": Builtin("asyncio.gather", self._gather),
@@ -590,6 +593,8 @@ class Model:
             if name == "values":
                 return Builtin("sims.values", lambda it, node: SimsValues())
             raise Unsupported(f"world.sims.{name}")
+        if obj is self.world and name == "time_resolution":
+            return z3.Real("time_resolution")
         if is_z3(obj) and obj.sort() == a.Sim:
             h = self.heap(it)
             if name == "progress":
@@ -847,10 +852,14 @@ class Model:
             return S.And(v.d, a.tlen(v.v) > 0) if not a.small else v.d
         if isinstance(v, OptReal):
             return z3.And(v.d, v.v != 0)
+        if is_z3(v) and z3.is_real(v):
+            return v != 0
         if self.is_T(v):
             return True if a.small else a.tlen(self.unT(v)) > 0
         if isinstance(v, (Bag,)):
-            raise Unsupported("truthiness of a bag")
+            # a list is truthy iff it has an element
+            return S.Or(*[(a.ex_var(q.var, q.guard) if q.guard is not True else True) if isinstance(q, Gen) else q[1]
+                          for q in v.parts]) if v.parts else False
         if isinstance(v, SimType):
             return True
         if isinstance(v, OutputsH):
@@ -896,6 +905,10 @@ class Model:
 
     def order(self, it, name, x, y, node):
         a = self.alg
+        if (is_z3(x) and z3.is_real(x)) or (is_z3(y) and z3.is_real(y)):
+            fx = z3.ToReal(x) if is_z3(x) and z3.is_int(x) else x
+            fy = z3.ToReal(y) if is_z3(y) and z3.is_int(y) else y
+            return {"lt": fx < fy, "le": fx <= fy, "gt": fx > fy, "ge": fx >= fy}[name]
         if isinstance(x, OptT) or isinstance(y, OptT) or self.is_T(x) or self.is_T(y):
             tx, ty = self.unT(self.as_T(it, x, node)), self.unT(self.as_T(it, y, node))
             # contract of TieredTime.__lt__ (C08): AssertionError iff the lengths differ
@@ -996,6 +1009,9 @@ class Model:
         return NotImplemented
 
     def getitem(self, it, obj, idx, node):
+        if isinstance(obj, SimsDict):
+            # world.sims[sid]: the simulator with that id (assumed to exist)
+            return z3.Function("sim_with_id", self.alg.Str, self.alg.Sim)(idx)
         if isinstance(obj, OutData):
             return DataEnt2(obj, idx)
         if isinstance(obj, DataEnt2):
